@@ -46,4 +46,4 @@ def main(tier):
         'complete programs of the AstEnum machine over a colliding name pool (let a / register q / alias r vs macro '
         'parameters a, q, r), textually identical gate statements in several scopes; each program rendered with the '
         'macros before the body and, when the body calls no macro, also after it; non-trivial = distinct programs in '
-        'which the same gate text occurs in two scopes', variants=('macros_last',))
+        'which the same gate text occurs in two scopes', variants=('macros_last', 'edge'))
